@@ -56,25 +56,18 @@ Proof.
   vm_compute; intros E; try reflexivity; discriminate E.
 Qed.
 
+Lemma w28_runs : exists b1 i1 b2 i2,
+  impl_model toyH 20 (Some 1000) (Some 6) w28 = Ok (b1, i1)
+  /\ impl_model toyH 20 (Some 1000) (Some 6) (map (rename_q swap36) w28) = Ok (b2, i2)
+  /\ str_eqb b1 b2 = false.
+Proof. vm_compute. do 4 eexists. repeat split; reflexivity. Qed.
+
 Theorem invariance_refuted_for_three_blank_quads : ~ invariance_statement.
 Proof.
-  intros Hinv.
-  destruct (impl_model toyH 20 (Some 1000) (Some 6) w28) as [[b1 i1]|e1] eqn:E1;
-    [|vm_compute in E1; discriminate E1].
-  destruct (impl_model toyH 20 (Some 1000) (Some 6) (map (rename_q swap36) w28)) as [[b2 i2]|e2] eqn:E2;
-    [|vm_compute in E2; discriminate E2].
+  intros Hinv. destruct w28_runs as (b1 & i1 & b2 & i2 & E1 & E2 & D).
   pose proof (Hinv toyH 20%nat (Some 1000) (Some 6) swap36 w28 (map (rename_q swap36) w28)
                 b1 i1 b2 i2 w28_wf w28_renamed_wf swap36_inj (Permutation_refl _) E1 E2) as Eb.
-  subst b2. rewrite E1 in E2. revert E2. clear. intros E2.
-  assert (D : match impl_model toyH 20 (Some 1000) (Some 6) w28,
-                    impl_model toyH 20 (Some 1000) (Some 6) (map (rename_q swap36) w28) with
-              | Ok (x, _), Ok (y, _) => str_eqb x y
-              | _, _ => true
-              end = false) by (vm_compute; reflexivity).
-  destruct (impl_model toyH 20 (Some 1000) (Some 6) w28) as [[x ix]|]; [|discriminate E2].
-  destruct (impl_model toyH 20 (Some 1000) (Some 6) (map (rename_q swap36) w28)) as [[y iy]|];
-    [|discriminate E2].
-  injection E2 as <- _. rewrite str_eqb_refl in D. discriminate D.
+  subst b2. rewrite str_eqb_refl in D. discriminate D.
 Qed.
 
 (* the witness does meet a tie, so it does not contradict invariance_no_ties_statement *)
@@ -90,6 +83,18 @@ Proof. vm_compute. reflexivity. Qed.
 (* Both relabelled datasets are the same set of quads; together with [idmap_bijection] (each
    identifier map is a bijection from the blank nodes of its input onto c14n0..c14n(n-1)) the
    composite of one map with the inverse of the other is an isomorphism. *)
+Lemma insert_by_perm {A} (leb : A -> A -> bool) x l : Permutation (x :: l) (insert_by leb x l).
+Proof.
+  induction l as [|y l IH]; cbn [insert_by]; [apply Permutation_refl|].
+  destruct (leb x y); [apply Permutation_refl|].
+  eapply perm_trans; [apply perm_swap|]. apply perm_skip. exact IH.
+Qed.
+Lemma sort_by_perm {A} (leb : A -> A -> bool) l : Permutation l (sort_by leb l).
+Proof.
+  induction l as [|x l IH]; cbn; [constructor|].
+  eapply perm_trans; [apply perm_skip; exact IH|]. apply insert_by_perm.
+Qed.
+
 Theorem equal_bytes_implies_isomorphic : forall H v fuel df pl d1 d2 bytes i1 i2,
   Forall wf_quad d1 -> Forall wf_quad d2 ->
   normalize_with H v fuel df pl d1 = Ok (bytes, i1) ->
@@ -97,10 +102,11 @@ Theorem equal_bytes_implies_isomorphic : forall H v fuel df pl d1 d2 bytes i1 i2
   Permutation (map (rename_q (id_of i1)) d1) (map (rename_q (id_of i2)) d2).
 Proof.
   intros H v fuel df pl d1 d2 bytes i1 i2 W1 W2 E1 E2.
-  pose proof (idmap_bijection _ _ _ _ _ _ _ _ E1) as (_ & _ & Hs1 & _ & _ & B1).
-  pose proof (idmap_bijection _ _ _ _ _ _ _ _ E2) as (_ & _ & Hs2 & _ & _ & B2).
-  assert (Q1 : Forall wf_quad (map (rename_q (id_of i1)) d1)) by (apply relabelled_wf; assumption).
-  assert (Q2 : Forall wf_quad (map (rename_q (id_of i2)) d2)) by (apply relabelled_wf; assumption).
+  pose proof (idmap_bijection _ _ _ _ _ _ _ _ E1) as (_ & _ & _ & _ & R1 & B1).
+  pose proof (idmap_bijection _ _ _ _ _ _ _ _ E2) as (_ & _ & _ & _ & R2 & B2).
+  apply relabel_with_core in R1 as (Wi1 & _). apply relabel_with_core in R2 as (Wi2 & _).
+  assert (Q1 : Forall wf_quad (map (rename_q (id_of i1)) d1)) by (apply wf_relabelled; assumption).
+  assert (Q2 : Forall wf_quad (map (rename_q (id_of i2)) d2)) by (apply wf_relabelled; assumption).
   unfold serialize in B1, B2.
   assert (E : sort_by quad_leb (map (rename_q (id_of i1)) d1)
             = sort_by quad_leb (map (rename_q (id_of i2)) d2)).
